@@ -39,6 +39,8 @@ if cfg.get('break') == 'thin_layer':
     upper = tuple([radius[2]] + list(bounds[1:])) if nl > 1 else (radius[2],)
 if cfg.get('break') == 'nan_density':
     rho_bulk = float('nan')
+if cfg.get('break') == 'inf_density':
+    rho_bulk = float('inf')
 if cfg.get('break') == 'nan_frequency':
     freq = float('nan')
 arrays = [radius, density, grav, bulk, cshear]
@@ -47,6 +49,8 @@ out = {'exception': None, 'success': None}
 kw = dict(degree_l=cfg.get('degree_l', 2), solve_for=tuple(cfg['solve_for']) if cfg.get('solve_for') is not None else None, use_kamata=True,
           integration_method=cfg.get('method', 'rk45'), integration_rtol=1e-6, integration_atol=1e-9, nondimensionalize=cfg.get('nondimensionalize', True),
           raise_on_fail=cfg.get('raise_on_fail', False), verbose=False, max_num_steps=cfg.get('max_num_steps', 500000))
+if 'expected_size' in cfg:
+    kw['expected_size'] = int(cfg['expected_size'])
 lt = tuple(l[0] for l in layers)
 if cfg.get('break') == 'bad_layer_type':
     lt = tuple(['plasma'] + list(lt[1:]))
@@ -112,6 +116,7 @@ diffs = []
 for a, c in zip(arrays, copies):
     with np.errstate(all='ignore'):
         d = np.abs(a - c) / (np.abs(c) + 1e-300)
+        d = np.where(~np.isfinite(a) & np.isfinite(c), 1e300, d)        # a finite input that came back NaN / inf is a change (not a value to be ignored)
     d = d[np.isfinite(d)]
     diffs.append(float(d.max()) if d.size else 0.0)
 out['max_rel_change'] = diffs
